@@ -1002,4 +1002,17 @@ theorem fmtOf_np : ∀ (d : Nat) (bs : Bytes), bs.length < d → bs.length < I32
       exact ih e (by omega) (by omega)
     · exact NP.ok _
 
+theorem seqFmtOf_np (seq : Bytes) (hu : seq.length < I32LIM) : NP (seqFmtOf seq) := by
+  unfold seqFmtOf
+  apply fmtSeq_np _ _ (elements_item_np seq hu)
+  intro e he
+  obtain ⟨oks, tail, e1, e2, _, e4⟩ := elements_spec seq hu
+  rw [e1, List.mem_append] at he
+  have hmem : e ∈ oks := by
+    rcases he with he | he
+    · rcases List.mem_map.mp he with ⟨a, ha, hh⟩; cases hh; exact ha
+    · rcases e2 with rfl | ⟨e', rfl⟩ <;> simp at he
+  have := e4 e hmem
+  exact fmtOf_np _ e (by omega) (by omega)
+
 end Tlv
